@@ -249,6 +249,10 @@ pub fn execute(case: &Case, opts: ExecOpts, mut instr: Box<dyn Instrument>, fata
                         break;
                     }
                     let run_cfg = case.world.run_config(case.run_parallelism, bi);
+                    if bi > 0 && case.simcfg.idle_between_runs_ns > 0 {
+                        // the application sits idle between two batches (an hour, a day)
+                        sim::advance_clock(case.simcfg.idle_between_runs_ns);
+                    }
                     instr.before_run(bi);
                     sim::set_quiet(false);
                     let r = catch_unwind(AssertUnwindSafe(|| pool.install(|| app.run(b.clone(), run_cfg.as_ref()))));
